@@ -100,8 +100,8 @@ def run_case(desc):
     if len(xd["letters"]) == 0:
         classes.append("x-0d")
     scale = 0.0
-    if mode == "float":
-        scale = sum(abs(v) for v in mx.data.values())
+    if mode in ("float", "int"):
+        scale = float(sum(abs(v) for v in mx.data.values()))
     nontrivial = False
 
     if form == "binary":
@@ -110,8 +110,8 @@ def run_case(desc):
         y = build.array(U, yd)
         my = build.marr(U, yd)
         snap_y = build.snapshot(y)
-        if mode == "float":
-            scale += sum(abs(v) for v in my.data.values())
+        if mode in ("float", "int"):
+            scale += float(sum(abs(v) for v in my.data.values()))
         classes.append(f"op:{op}")
         if gen.is_permuted(U, yd["letters"]):
             classes.append("y-permuted")
@@ -284,6 +284,25 @@ class Exact(Facet):
         return run_case(desc)
 
 
+class IntStored(Facet):
+    """Integer-valued entries stored with an integer dtype (legitimate input, e.g. np.arange data):
+    out-of-place arithmetic is over the reals, so x + 0.5, x / y, 2.5 - x ... follow the same rules."""
+
+    name = "intstored"
+    examples = {"quick": 2400, "thorough": 120000}
+    shards = {"quick": 8, "thorough": 16}
+
+    def strategy(self, tier):
+        return arith_cases("int", max_dims=3, max_len=3)
+
+    def run(self, desc):
+        if desc.get("form") == "binary" and desc.get("op") == "**":
+            from vlib.runner import Discard
+
+            raise Discard("integer ** integer array: numpy refuses negative integer powers")
+        return run_case(desc)
+
+
 class Float(Facet):
     name = "float"
     examples = {"quick": 3000, "thorough": 180000}
@@ -353,7 +372,7 @@ Prop(
     "entered; configs: complete enumeration of ordered operand pairs over a 3-dim (thorough 4-dim) universe with "
     "label-coded values. Non-trivial = operand dimension sets differ, or shared dims stored in different order, or a "
     "reflected/number/0-d form. distinct = SHA-1 of the case descriptor.",
-    [Sym(), Exact(), Float(), Configs()],
+    [Sym(), Exact(), Float(), IntStored(), Configs()],
     assumptions=[
         "float64/object storage (integer-dtype storage is outside the property)",
         "division cases with a zero denominator are discarded (counted)",
